@@ -7,3 +7,4 @@ import Gleece.Properties.C06
 #print axioms Gleece.IR.error_response
 #print axioms Gleece.IR.valueType_cases
 #print axioms Gleece.Text.splitOn_append_sep
+#print axioms Gleece.IR.reduced_param_required
